@@ -13,6 +13,8 @@ A term is JSON: strings are names.
         | ["def", n, [deco], params, ret|None, body] | ["class", n, [bases], [deco], [kws], body]
         | ["for", target, e, body, orelse] | ["while", e, body, orelse] | ["if", e, body, orelse]
         | ["with", [[e, target|None]], body] | ["try", body, [[ty|None, n|None, body]], orelse, final] | ["pass"]
+        | ["doc", [example stmt], [brace names]]   a docstring statement with doctest examples (expr / assign statements)
+ params may carry "async": True (rendered `async def`; the analysis treats it as a def)
 """
 
 RESERVED = ["*", "__all__", "__class__", "__future__"]      # ids 0..3 (PySyntax.v)
@@ -28,7 +30,8 @@ BUILTIN_POOL = ['int', 'len']
 # generator
 
 class Gen:
-    def __init__(self, r, execd, maxdepth=3, classes=True, funcs=True, comps=True):
+    def __init__(self, r, execd, maxdepth=3, classes=True, funcs=True, comps=True, mods=None):
+        self.mods = mods or MODS
         self.r, self.execd, self.maxdepth = r, execd, maxdepth
         self.classes, self.funcs, self.comps = classes, funcs, comps
 
@@ -166,14 +169,14 @@ class Gen:
 
     def imp(self):
         r = self.r
-        mod = r.choice(MODS)
+        mod = r.choice(self.mods)
         k = r.random()
         if not self.execd and k < .03:
             return ["from", mod, [["*", None]]]
         if k < .4:
             items = [[mod, None]]
             if r.random() < .1:
-                items.append([r.choice(MODS), None])
+                items.append([r.choice(self.mods), None])
             return ["import", items]
         if k < .55:
             return ["import", [[mod, r.choice(NAMES)]]]
@@ -328,16 +331,24 @@ def names_of(prog):
     return set(rec)
 
 
+RESERVED_IDS = {"*": 0, "__all__": 1000, "__class__": 2000, "__future__": 3000}
+
+
 def name_ids(prog, extra=()):
-    """ids monotone in Python string order; the four reserved spellings get 0..3"""
+    """ids monotone in Python string order; the four reserved spellings have fixed ids (PySyntax.v), every
+    other name gets an id in the gap where it sorts"""
     acc = set(extra) | names_of(prog)
     acc -= set(RESERVED)
-    user = sorted(acc)
-    for n in user:
-        assert n > "__future__", "name %r would sort among the reserved ids" % n
-    ids = {n: i for i, n in enumerate(RESERVED)}
-    for i, n in enumerate(user):
-        ids[n] = 4 + i
+    ids = dict(RESERVED_IDS)
+    bounds = sorted(RESERVED_IDS.items(), key=lambda kv: kv[1])
+    for n in sorted(acc):
+        assert n > "*", "name %r sorts before every reserved spelling" % n
+    for k, (rn, rid) in enumerate(bounds):
+        hi = bounds[k + 1][0] if k + 1 < len(bounds) else None
+        grp = sorted(n for n in acc if n > rn and (hi is None or n < hi))
+        assert len(grp) < 990
+        for j, n in enumerate(grp):
+            ids[n] = rid + 1 + j
     return ids
 
 
@@ -536,7 +547,7 @@ class Render:
             dg = self.decos(ds, ind)
             pp, pg = self.params(P)
             rp = self.expr(ret) if ret is not None else None
-            ln = self.emit(ind, "def %s(%s)%s:" % (nm, pp, (" -> " + rp[0]) if rp else ""))
+            ln = self.emit(ind, "%sdef %s(%s)%s:" % ("async " if P.get("async") else "", nm, pp, (" -> " + rp[0]) if rp else ""))
             bg = self.suite(body, ind + 1)
             return "(SDef %d %s %s %s %s %s)" % (ln, self.N(nm), dg, pg, self.O(rp[1] if rp else None), bg)
         if t == "class":
@@ -602,6 +613,21 @@ class Render:
             return "(STry %d %s %s %s %s)" % (ln, bg, self.L(hg), og, fg)
         if t == "pass":
             return "(SPass %d)" % self.emit(ind, "pass")
+        if t == "doc":
+            _, examples, braces = s
+            ln = self.emit(ind, '"""doc ' + " ".join("{%s}" % b for b in braces))
+            exs = []
+            for x in examples:
+                if x[0] == "expr":
+                    p, g = self.expr(x[1])
+                    exs.append("(SExpr %d %s)" % (self.emit(ind, ">>> " + p), g))
+                else:
+                    ts = [self.target(y) for y in x[1]]
+                    p, g = self.expr(x[2])
+                    l2 = self.emit(ind, ">>> " + " = ".join([tp for tp, _ in ts] + [p]))
+                    exs.append("(SAssign %d %s %s)" % (l2, self.L([c for _, c in ts]), g))
+            self.emit(ind, '"""')
+            return "(SDoc %d %s %s)" % (ln, self.L(exs), self.Ns(braces))
         raise ValueError(t)
 
 
